@@ -1,10 +1,170 @@
-/- driver for C16 : to be filled in (stub keeps Main.lean compiling) -/
+/- driver for C16 (constraint transforms / decorators), Float instantiation of Model/Transforms -/
 import MysticVerif.Basic.Proto
+import MysticVerif.Model.Transforms
 
 namespace MysticVerif.DrvC16
-open MysticVerif
+open MysticVerif MysticVerif.Trans
+
+def showR (r : Except Err (List Float)) : String :=
+  match r with
+  | .ok y => s!"ok y={pFs y}"
+  | .error e => s!"err {e.str}"
+
+/-- `none` or a list of ints -/
+def parseIdx (v : Val) : Option (Option (List Int)) :=
+  match v with
+  | .sym "none" => some none
+  | _ => v.asInts?.map some
+
+def parseOptF (v : Val) : Option (Option Float) :=
+  match v with
+  | .sym "none" => some none
+  | _ => v.asFloat?.map some
+
+def parsePairsF (v : Val) : Option (List (Float × Float)) := do
+  let l ← v.asList?
+  l.mapM fun
+    | .list [a, b] => do pure (← a.asFloat?, ← b.asFloat?)
+    | _ => none
+
+def parseIF (v : Val) : Option (List (Int × Float)) := do
+  let l ← v.asList?
+  l.mapM fun
+    | .list [.int i, b] => do pure (i, ← b.asFloat?)
+    | _ => none
+
+def parseII (v : Val) : Option (List (Int × Int)) := do
+  let l ← v.asList?
+  l.mapM fun
+    | .list [.int i, .int j] => some (i, j)
+    | _ => none
+
+def parseTrack (v : Val) : Option (List (Int × Track Float)) := do
+  let l ← v.asList?
+  l.mapM fun
+    | .list [.int i, .int j] => some (i, Track.idx j)
+    | .list [.int i, .int j0, c] => do pure (i, Track.scaled j0 (← c.asFloat?))
+    | _ => none
+
+def parseSpec (v : Val) : Option (List (Option Int × List (Float × Float))) := do
+  let l ← v.asList?
+  l.mapM fun
+    | .list [.sym "none", ivs] => do pure (none, ← parsePairsF ivs)
+    | .list [.int i, ivs] => do pure (some i, ← parsePairsF ivs)
+    | _ => none
+
+def parseFss (v : Val) : Option (List (List Float)) := do
+  let l ← v.asList?
+  l.mapM Val.asFloats?
+
+def fRint : Float → Float := rintHE Float.floor
+/-- `astype(int)` seen as a float again (finite inputs only) -/
+def fTrunc (a : Float) : Float := if a < 0 then a.ceil else a.floor
+def fNaN : Float := 0.0 / 0.0
+def seqSum (l : List Float) : Float := l.foldl (· + ·) 0
+
+/-- constraints.py l.1221-1222: `None`/NaN bounds become -inf / inf -/
+def normIv (iv : Float × Float) : Float × Float :=
+  (if iv.1.isNaN then -(1.0 / 0.0) else iv.1, if iv.2.isNaN then 1.0 / 0.0 else iv.2)
+/-- l.1237-1238 (clip=False only): limit to plus or minus 1e300 -/
+def limitIv (iv : Float × Float) : Float × Float :=
+  (if iv.1 < -1e300 then -1e300 else iv.1, if iv.2 > 1e300 then 1e300 else iv.2)
+
+def pickSum (v : Option Val) : List Float → Float :=
+  match v with
+  | some (.sym "np") => npSum
+  | _ => seqSum
 
 def handle : Handler
+  | .sym op :: args => Id.run do
+    let some x := (kw? args "x").bind Val.asFloats? | return "bad-op"
+    let idx? := (kw? args "idx").bind parseIdx
+    match op with
+    | "discrete" =>
+      let some idx := idx? | return "bad-op"
+      let some s := (kw? args "samples").bind Val.asFloats? | return "bad-op"
+      return showR (discrete s idx x)
+    | "integers" =>
+      let some idx := idx? | return "bad-op"
+      let some c := (kw? args "cast").bind Val.asSym? | return "bad-op"
+      return showR (.ok (integers fRint (if c == "int" then fTrunc else id) idx x))
+    | "rounded" =>
+      let some idx := idx? | return "bad-op"
+      let some d := (kw? args "digits").bind Val.asInt? | return "bad-op"
+      let some p := (kw? args "p").bind Val.asFloat? | return "bad-op"
+      return showR (.ok (rounded fRint d p idx x))
+    | "unique" =>
+      let some new := (kw? args "new").bind Val.asFloats? | return "bad-op"
+      let some full := (kw? args "full").bind Val.asFloats? | return "bad-op"
+      return showR (unique full x new)
+    | "bounds" =>
+      let some spec := (kw? args "spec").bind parseSpec | return "bad-op"
+      return showR (.ok (imposeBounds (spec.map fun e => (e.1, e.2.map normIv)) x))
+    | "bounded" =>
+      let some idx := idx? | return "bad-op"
+      let some ivs := (kw? args "ivs").bind parsePairsF | return "bad-op"
+      let some mode := (kw? args "mode").bind Val.asSym? | return "bad-op"
+      let picks := ((kw? args "picks").bind Val.asNats?).getD []
+      let draws := ((kw? args "draws").bind parseFss).getD []
+      if ivs.isEmpty then return showR (.ok x)
+      let ivs := ivs.map normIv
+      let ivs := if mode == "randnear" || mode == "randpick" then ivs.map limitIv else ivs
+      match mode with
+      | "near" => return showR (.ok (bounded ivs idx x))
+      | "pick" => return showR (.ok (boundedPickGo ivs idx x 0 picks))
+      | "randnear" => return showR (.ok (boundedRandGo ivs idx true draws x 0 0 []))
+      | "randpick" => return showR (.ok (boundedRandGo ivs idx false draws x 0 0 picks))
+      | _ => return "bad-op"
+    | "sorting" =>
+      let some idx := idx? | return "bad-op"
+      let some asc := (kw? args "asc").bind Val.asBool? | return "bad-op"
+      return showR (sorting asc idx x)
+    | "monotonic" =>
+      let some idx := idx? | return "bad-op"
+      let some asc := (kw? args "asc").bind Val.asBool? | return "bad-op"
+      return showR (monotonic asc idx x)
+    | "at" =>
+      let some index := (kw? args "index").bind Val.asInts? | return "bad-op"
+      match (kw? args "target").bind Val.asFloat?, (kw? args "targets").bind Val.asFloats? with
+      | some t, _ => return showR (imposeAt index (.inl t) x)
+      | none, some ts => return showR (imposeAt index (.inr ts) x)
+      | _, _ => return "bad-op"
+    | "as" =>
+      let some mask := (kw? args "mask").bind parseII | return "bad-op"
+      let some off := (kw? args "offset").bind Val.asFloat? | return "bad-op"
+      return showR (imposeAs mask off x)
+    | "partial" =>
+      let some mask := (kw? args "mask").bind parseIF | return "bad-op"
+      return showR (.ok (partialMask mask x))
+    | "sync" =>
+      let some mask := (kw? args "mask").bind parseTrack | return "bad-op"
+      let some arr := (kw? args "array").bind Val.asBool? | return "bad-op"
+      return showR (.ok (synchronized arr mask x))
+    | "clipped" =>
+      let some lo := (kw? args "lo").bind parseOptF | return "bad-op"
+      let some hi := (kw? args "hi").bind parseOptF | return "bad-op"
+      return showR (.ok (clipped lo hi x))
+    | "suppress" =>
+      let some tol := (kw? args "tol").bind Val.asFloat? | return "bad-op"
+      return showR (.ok (suppress tol x))
+    | "suppressspread" =>
+      let some tol := (kw? args "tol").bind Val.asFloat? | return "bad-op"
+      return showR (suppressSpread Float.ofNat tol x)
+    | "masked" =>
+      let some mask := (kw? args "mask").bind parseIF | return "bad-op"
+      return showR (masked mask x)
+    | "mean" | "spread" | "norm" | "var" =>
+      let some target := (kw? args "target").bind Val.asFloat? | return "bad-op"
+      let some atol := (kw? args "atol").bind Val.asFloat? | return "bad-op"
+      let some rtol := (kw? args "rtol").bind Val.asFloat? | return "bad-op"
+      let sm := pickSum (kw? args "sum")
+      match op with
+      | "mean" => return showR (withMean sm Float.ofNat atol rtol target x)
+      | "spread" => return showR (withSpread sm Float.ofNat atol rtol fNaN target x)
+      | "norm" => return showR (.ok (normalized sm atol rtol target x))
+      | _ => return showR (withVariance sm Float.ofNat Float.sqrt atol rtol fNaN target x)
+    | "npsum" => return s!"ok s={pF (npSum x)}"
+    | _ => return "bad-op"
   | _ => "bad-op"
 
 end MysticVerif.DrvC16
